@@ -402,18 +402,27 @@ fn run_job_once(st: &Setup, j: &Job) -> Outcome {
     out
 }
 
-/// A run that ends as `blocked` (nobody computes, nobody answers) is repeated once: a genuine block is
-/// deterministic and blocks again; anything else was a scheduling accident of a loaded machine and the
-/// second outcome is taken (the first is kept in `retried`).
+/// A run that ends as a hang (blocked, spinning or over the time limit) is repeated up to two more times: a
+/// genuine hang is deterministic and hangs every time; anything else was a scheduling/accounting accident of
+/// a loaded machine and the first non-hanging outcome is taken (the first verdict is kept in `retried`).
 fn run_job(st: &Setup, j: &Job) -> Outcome {
     let first = run_job_once(st, j);
-    if first.fin.starts_with("(hang \"blocked") {
-        let mut second = run_job_once(st, j);
-        second.retried = Some(first.fin.clone());
-        second.wall_ms += first.wall_ms;
-        return second;
+    if !first.fin.starts_with("(hang") {
+        return first;
     }
-    first
+    let mut wall = first.wall_ms;
+    let mut last = first.clone();
+    for _ in 0..2 {
+        let mut next = run_job_once(st, j);
+        wall += next.wall_ms;
+        next.retried = Some(first.fin.clone());
+        next.wall_ms = wall;
+        if !next.fin.starts_with("(hang") {
+            return next;
+        }
+        last = next;
+    }
+    last
 }
 
 // ------------------------------------------------------------------------------------------ systems
@@ -504,6 +513,7 @@ fn gen_system(rng: &mut Rng, idx: u64) -> SysCase {
         arrays_in_exprs: true,
         init_reads_earlier: true,
         div_rem: false,
+        anon_inputs: false,
     };
     let sys = gen_sys(&mut ctx, rng, &cfg);
     let kmax = rng.range(1, 3);
